@@ -195,7 +195,10 @@ def files(m, n, r, mode, fmt, enc, lig, **kw):
     if got_lex != want_lex:
         return "%s lexicon decodes to %r, in memory %r" % (name, got_lex, want_lex)
     if name == "rcg" and not lig:
-        g2, lex2 = grammarinput.rcg("out/g", e)
+        try:
+            g2, lex2 = grammarinput.rcg("out/g", e)
+        except Exception as ex:     # noqa
+            return "tool's RCG reader fails on the tool's own output (%s): %s: %s" % (e, type(ex).__name__, ex)
         if norm(g2) != want_g:
             return "tool's RCG reader returns %r, in memory %r" % (norm(g2), want_g)
         if normlex(lex2) != want_lex:
@@ -249,8 +252,12 @@ def cmd(m, n, r, mode, dfmt, enc, **kw):
     return ""
 
 
-def strip(s, k):
+STRIPALPHA = "A1@-X"
+
+
+def strip(k, n, **kw):
     """label_strip_fanout(label + str(k)) == label for labels not ending in a digit"""
+    s = "".join(STRIPALPHA[kw["x%d" % i]] for i in range(1, n + 1))
     if len(s) == 0 or s[-1].isdigit():
         return ""
     got = grammarconst.label_strip_fanout(s + str(k))
@@ -267,12 +274,14 @@ def conds(tier):
         cs.append(Cond("files-m%d-n%d" % (m, n), "harness.c09:files", ps, fixed={"m": m, "n": n},
                        pre=[e1_wf_expr(m, n), "fmt < 2 or not lig"] + (["enc == (fmt + mode) % 3 and (r == 1 or mode == 0)"] if q else []),
                        shard=["fmt", "mode"] + (["lig"] if m * n >= 8 else []) + ([] if q else ["enc"]),
-                       timeout=600 if q else 3000, functions=FUNCS))
+                       skip=lambda sf: sf["fmt"] == 2 and sf.get("lig", False), timeout=600 if q else 3000, functions=FUNCS))
     for (m, n) in ([(2, 3)] if q else [(2, 3), (2, 4), (3, 4)]):
         ps = e1_params(m, n) + [P("r", "int", 1, 3), P("mode", "int", 0, 4), P("dfmt", "int", 0, 2), P("enc", "int", 0, 3)]
         cs.append(Cond("cmd-m%d-n%d" % (m, n), "harness.c09:cmd", ps, fixed={"m": m, "n": n},
                        pre=[e1_wf_expr(m, n)] + (["enc == mode % 3 and r == 1"] if q else []), shard=["mode", "dfmt"],
                        timeout=600 if q else 3000, functions=FUNCS[5:6] + FUNCS[:4]))
-    cs.append(Cond("strip", "harness.c09:strip", [P("s", "str", hi=3 if q else 4, alphabet="A1@-X"), P("k", "int", 1, 4)],
-                   shard=["k"], timeout=300 if q else 1500, functions=FUNCS[4:5]))
+    for n in ([1, 2, 3] if q else [1, 2, 3, 4]):
+        cs.append(Cond("strip-n%d" % n, "harness.c09:strip", [P("x%d" % i, "int", 0, len(STRIPALPHA)) for i in range(1, n + 1)] +
+                       [P("k", "int", 1, 13)], fixed={"n": n}, timeout=300 if q else 1500, functions=FUNCS[4:5],
+                       note="labels of length %d over %r followed by the fan-out k" % (n, STRIPALPHA)))
     return cs
